@@ -64,8 +64,29 @@ def check_tables(ctx, oid="C06.5"):
             for i in range(5):
                 c = tm.binop("bxor", c, tm.ite(tm.truth(tm.binop("band", tm.binop("shr", b, i), 1)), GEN[i], 0))
             got = lp.body.get(var[0])
-            R.check(oid, "TERM-EQ", fp, "polymod step = BIP173's (generator constants, shifts, masks)", tm.veq(got, c),
-                    "polymod step: %s" % tm.first_diff(got, c), expected=tm.show(c)[:300], found=tm.show(got)[:300])
+            same = tm.veq(got, c)
+            diff = tm.first_diff(got, c)
+            if not same:
+                # decided per value t of the top five bits (chk >> 25; the accumulator stays below 2^30 because every value
+                # is below 32): the step must be ((chk & 0x1ffffff) << 5) ^ v ^ XOR{GEN[i] : bit i of t}, whatever
+                # form (bit tests, a 32-entry table) selects the constants
+                same = True
+                for t in range(32):
+                    ev.bind = {b: t}
+                    lps = [lp2 for lp2 in ev.run(fp).loops if lp2.func == fp.qualname and lp2.kind == "for" and lp2.depth == 0]
+                    x = 0
+                    for i in range(5):
+                        if (t >> i) & 1:
+                            x ^= GEN[i]
+                    want_t = tm.binop("bxor", tm.binop("bxor", tm.binop("shl", tm.binop("band", acc, 0x1FFFFFF), 5), v), x)
+                    got_t = lps[0].body.get(var[0]) if len(lps) == 1 else None
+                    if not tm.veq(got_t, want_t):
+                        same = False
+                        diff = "for chk >> 25 == %d: %s" % (t, tm.first_diff(got_t, want_t))
+                        break
+                ev.bind = {}
+            R.check(oid, "TERM-EQ", fp, "polymod step = BIP173's (generator constants, shifts, masks)", same,
+                    "polymod step: %s" % diff, expected=tm.show(c)[:300], found=tm.show(got)[:300])
             rets = s.returns()
             R.check(oid, "TERM-EQ", fp, "polymod returns the accumulator", len(rets) == 1 and isinstance(rets[0].value, T) and rets[0].value.op == "fold"
                     and rets[0].value.args[0] == var[0], "bech32_polymod returns %s" % (tm.show(rets[0].value)[:80] if rets else None))
@@ -103,11 +124,20 @@ def has_raise(summary, pred, exc=("AssertionError",)):
     return False
 
 
+def _outcome(ev, fi, args=None, **kw):
+    s = ev.run(fi, args, **kw) if args is not None else ev.run(fi, **kw)
+    return s, rules.decided_outcome(s)
+
+
 def check_parse_and_validate(ctx, oid="C06.2"):
+    """parse_bech32 and assert_valid_bech32 as decision tables over input cells (sa/cells.py): each cell fixes the facts BIP173's
+    validity rules talk about and leaves everything else arbitrary; the function must refuse / accept the whole cell."""
+    from .. import cells
     R = ctx.R
     ev = ctx.evaluator(opaque={B + "bech32_polymod"})
     fp = ctx.fn(B + "parse_bech32")
     bs = P(fp.params()[0], tm.BYTES)
+    low = T("m:lower", (bs,), tm.BYTES)
     for L, accept in ((89, True), (90, True), (91, False), (200, False)):
         ev.bind = {tm.length(bs): L}
         s = ev.run(fp)
@@ -115,93 +145,145 @@ def check_parse_and_validate(ctx, oid="C06.2"):
         refused = first is not None and first.kind == "raise" and tm.land(list(first.guard)) is True
         R.check(oid, "REGION", fp, "overall length %d %s" % (L, "accepted" if accept else "refused"), refused != accept,
                 "a %d-character string is %s by the length check (limit 90)" % (L, "refused" if refused else "accepted"), example="a string of %d characters" % L)
+    # cells: case of the letters x number of separators x emptiness of the part before the (only) separator
+    cases = {"lower-case": (False, True), "upper-case": (True, False), "mixed-case": (False, False)}
+    for cname, (up, lo) in cases.items():
+        for k in (0, 1, 2, 3):
+            for hne in ((True, False) if k == 1 else (True,)):
+                pieces = [P("piece%d" % i, tm.BYTES) for i in range(k + 1)]
+                binds = {tm.length(bs): 40}
+                for src in (low, bs, T("m:upper", (bs,), tm.BYTES)):
+                    binds[T("m:split", (src, b"1"), tm.LIST)] = pieces
+                ev.bind = binds
+                atoms = [(T("m:isupper", (bs,), tm.BOOL), up), (T("m:islower", (bs,), tm.BOOL), lo), (tm.truth(pieces[0]), hne)]
+                for src in (low, bs):
+                    atoms.append((tm.cmp("in", b"1", src), k > 0))
+                cell = cells.Cell(atoms=atoms)
+                ev.assume_fn = cell
+                s = ev.run(fp)
+                kind, val = rules.decided_outcome(s)
+                ev.assume_fn = None
+                what = "%s string with %d separator(s)%s" % (cname, k, "" if hne else " and nothing before it")
+                if cname == "mixed-case" or k == 0 or not hne:
+                    R.check(oid, "DECISION-TABLE", fp, what + " refused", kind == "raise", "a %s is not refused (%s)" % (what, kind),
+                            example={"mixed-case": "tb1qw508d6qejxtdg4y5r3zarvary0c5xw7kxpjzsX", "lower-case": "pzry9x0s0muk" if k == 0 else "1pzry9x0s0muk"}.get(cname, "PZRY9X0S0MUK"))
+                else:
+                    want = (tm.join(b"1", pieces[:-1]), pieces[-1])
+                    ok = kind == "return" and isinstance(val, (list, tuple)) and len(val) == 2 and tm.veq(val[0], want[0]) and tm.veq(val[1], want[1])
+                    R.check(oid, "DECISION-TABLE", fp, what + " -> (everything before the LAST separator, what follows it), lower-cased", ok,
+                            "a %s is parsed to %s %s" % (what, kind, tm.show(val)[:160]), example="split at the last '1' expected")
     ev.bind = {}
-    s = ev.run(fp)
-    low = T("m:lower", (bs,), tm.BYTES)
-    R.check(oid, "DOM", fp, "mixed case refused", has_raise(s, lambda g: tm.veq(g, tm.lnot(tm.lor([T("m:isupper", (bs,), tm.BOOL), T("m:islower", (bs,), tm.BOOL)])))),
-            "no rejection of mixed-case strings", example="tb1q...sL5k7")
-    R.check(oid, "DOM", fp, "separator required", has_raise(s, lambda g: isinstance(g, T) and g.op == "cmp" and g.args[0] == "notin" and g.args[1] == b"1"),
-            "no rejection of strings without the separator '1'")
-    rets = s.returns()
-    okr = len(rets) == 1 and isinstance(rets[0].value, (list, tuple)) and len(rets[0].value) == 2
-    R.check(oid, "TERM-EQ", fp, "returns (hrp, data)", okr, "parse_bech32 does not return a pair")
-    if okr:
-        hrp_t, data_t = rets[0].value
-        parts = T("m:split", (low, b"1"), tm.LIST)
-        R.check(oid, "TERM-EQ", fp, "hrp = everything before the LAST separator, data = after it (lower-cased)",
-                tm.veq(hrp_t, tm.join(b"1", tm.slc(parts, None, -1))) and tm.veq(data_t, tm.idx(parts, -1)),
-                "split at the last '1' expected; found hrp=%s data=%s" % (tm.show(hrp_t)[:100], tm.show(data_t)[:80]))
-        R.check(oid, "DOM", fp, "empty HRP refused", any(tm.veq(f, tm.truth(hrp_t)) for f in rules.all_facts(rets[0])), "no rejection of an empty human-readable part")
     # assert_valid_bech32
     fa = ctx.fn(B + "assert_valid_bech32")
-    s = ev.run(fa)
-    hrp, data, const = P("hrp", tm.BYTES), P("data", tm.BYTES), P("constant", tm.INT)
+    eva = ctx.evaluator(opaque={B + "bech32_verify_checksum"})
+    eva.unroll_sized = True
+    const = P("constant", tm.INT)
+    charset = set(CHARS)
+    hrp_ok = range(33, 127)
 
-    def in_loop_over(e, it):
-        return any(isinstance(g, T) and g.op == "iter" for g in e.guard) and any(
-            lp.func == fa.qualname and tm.veq(lp.iter, it) and e in lp.exits for lp in s.loops)
+    def run_cell(nh, nd, bad_hrp=None, bad_data=None, chk=True):
+        hrp, data = tm.sized("hrp", nh), tm.sized("data", nd)
+        classes = {}
+        for i in range(nh):
+            classes[tm.idx(hrp, i)] = [v for v in range(256) if (v in hrp_ok) != (i == bad_hrp)]
+        for i in range(nd):
+            classes[tm.idx(data, i)] = [v for v in range(256) if (v in charset) != (i == bad_data)]
 
-    okh = any(e.exc == "AssertionError" and in_loop_over(e, hrp) and any(
-        isinstance(g, T) and g.op == "not" and isinstance(g.args[0], T) and g.args[0].op == "inrange" and g.args[0].args[1:] == (33, 127) for g in e.guard) for e in s.raises())
-    R.check(oid, "DOM", fa, "HRP characters restricted to [33, 126]", okh, "no per-character range check of the human-readable part")
-    R.check(oid, "DOM", fa, "HRP length in [1, 83]", has_raise(s, lambda g: tm.veq(g, tm.lnot(T("inrange", (tm.length(hrp), 1, 84), tm.BOOL)))),
-            "no rejection of an over-long human-readable part")
-    R.check(oid, "DOM", fa, "checksum is 6 characters", has_raise(s, lambda g: tm.veq(g, tm.cmp("ne", tm.length(tm.slc(data, -6, None)), 6))),
-            "no rejection of a too-short checksum")
-    okd = any(e.exc == "AssertionError" and in_loop_over(e, data) and any(
-        isinstance(g, T) and g.op == "cmp" and g.args[0] == "notin" and g.args[2] == CHARS for g in e.guard) for e in s.raises())
-    R.check(oid, "DOM", fa, "every data character is in the charset", okd, "no per-character charset check over the whole data part",
-            example="x1b4n0q5v (invalid data character)")
-    e0 = tm.bv(0, tm.INT)
-    hl = tm.mapt(tm.i2b(e0, 1, "big"), hrp)
-    exp = tm.lcat([tm.mapt(tm.binop("shr", T("ord", (tm.bv(0),), tm.INT), 5), hl), [0], tm.mapt(tm.binop("band", 31, T("ord", (tm.bv(0),), tm.INT)), hl)])
-    im = {bytes([c]): i for i, c in enumerate(CHARS)}
-    dl = tm.mapt(T("lookup", (tm.freeze(im), tm.i2b(e0, 1, "big")), tm.ANY), data)
-    pm = tm.app(B + "bech32_polymod", [tm.lcat([exp, dl])], ty=tm.INT)
-    R.check(oid, "DOM", fa, "polymod(expand(hrp) + values(data)) == constant required",
-            has_raise(s, lambda g: tm.veq(g, tm.cmp("ne", pm, const)) or tm.veq(g, tm.cmp("ne", const, pm))),
-            "the checksum comparison is missing or not over expand(hrp) + the 5-bit values of the whole data part", example="A1G7SGD8 (invalid checksum)")
+        def verify(cond):
+            c, neg = cond, False
+            if c.op == "not":
+                c, neg = c.args[0], True
+            if c.op == "truth":
+                c = c.args[0]
+            if c.op == "app" and c.args[0] == B + "bech32_verify_checksum":
+                return chk != neg
+            return None
+        cell = cells.Cell(classes=classes, fallback=verify)
+        eva.assume_fn = cell
+        s = eva.run(fa, {"hrp": hrp, "data": data, "constant": const})
+        eva.assume_fn = None
+        return s, rules.decided_outcome(s), hrp, data
+
+    table = []
+    for nh in (0, 1, 2, 83, 84):
+        table.append(("HRP of %d characters" % nh, dict(nh=nh, nd=8), 1 <= nh <= 83))
+    for nd in (0, 5, 6, 7, 14):
+        table.append(("data part of %d characters" % nd, dict(nh=2, nd=nd), nd >= 6))
+    for j in (0, 1, 82):
+        table.append(("HRP character %d outside [33, 126]" % j, dict(nh=83, nd=8, bad_hrp=j), False))
+    for j in (0, 1, 7, 8, 12, 13):
+        table.append(("data character %d of 14 outside the charset" % j, dict(nh=2, nd=14, bad_data=j), False))
+    table.append(("well-formed but checksum mismatch", dict(nh=2, nd=14, chk=False), False))
+    for name, kw, accept in table:
+        s, (kind, val), hrp, data = run_cell(**kw)
+        R.check(oid, "DECISION-TABLE", fa, "%s %s" % (name, "accepted" if accept else "refused"), (kind == "return") == accept and kind in ("return", "raise"),
+                "%s: %s" % (name, "refused" if kind == "raise" else "accepted" if kind == "return" else "not decided"),
+                example={"HRP character": "\x201nwldj5 (HRP character out of range)", "data character": "x1b4n0q5v (invalid data character)",
+                         "well-formed": "A1G7SGD8 (invalid checksum)"}.get(name[:14].strip(), name))
+        if accept and kind == "return" and kw == dict(nh=2, nd=14):
+            calls = [c for c in s.calls if c[0] == B + "bech32_verify_checksum"]
+            okc = False
+            if len(calls) == 1:
+                pos, kwc = calls[0][1], calls[0][2]
+                a_h = rules.unfz(pos[0]) if pos else rules.unfz(kwc.get("hrp"))
+                a_d = rules.unfz(pos[1]) if len(pos) > 1 else rules.unfz(kwc.get("data"))
+                a_c = pos[2] if len(pos) > 2 else kwc.get("constant")
+                okc = isinstance(a_h, (list, tuple)) and len(a_h) == 2 and all(tm.veq(x, tm.i2b(tm.idx(hrp, i), 1, "big")) or tm.veq(x, tm.slc(hrp, i, i + 1)) for i, x in enumerate(a_h)) and \
+                    isinstance(a_d, (list, tuple)) and len(a_d) == 14 and all(char_value(x, data) == i for i, x in enumerate(a_d)) and tm.veq(a_c, const)
+            R.check(oid, "TERM-EQ", fa, "checksum verified over (HRP characters, 5-bit values of the WHOLE data part, the given constant)", okc,
+                    "the checksum comparison is missing or not over the HRP characters + the 5-bit values of the whole data part", example="A1G7SGD8 (invalid checksum)")
 
 
 def check_decode_segwit(ctx, oid="C06.2"):
+    """decode_segwit_addr over cells: the data part is an arbitrary string of nd characters whose first character has witness
+    version value v (all 32 values, and `not in the charset`)."""
+    from .. import cells
     R = ctx.R
     fi = ctx.fn("bits.utils.decode_segwit_addr")
     ev = ctx.evaluator(opaque={B + "parse_bech32", B + "assert_valid_bech32", B + "bech32_decode"})
-    addr = P("addr", tm.BYTES)
+    addr = P(fi.params()[0], tm.BYTES)
     pb = tm.app(B + "parse_bech32", [addr], ty=tm.TUPLE)
-    hrp, data = T("proj", (pb, 0)), T("proj", (pb, 1))
-    im = {bytes([c]): i for i, c in enumerate(CHARS)}
-    vch = tm.slc(data, None, 1)
-    look = T("lookup", (tm.freeze(im), vch), tm.ANY)
+    hrp = P("hrp", tm.BYTES)
     wrong = []
-    for v in range(32):
-        ev.bind = {look: v}
-        ev.assumptions = {tm.cmp("in", vch, im): True, tm.cmp("in", vch, tm.freeze(im)): True}
-        s = ev.run(fi, use_defaults=True)
-        kind, val = rules.decided_outcome(s)
-        calls = [c for c in s.calls if c[0] == B + "assert_valid_bech32"]
-        want_const = 1 if v == 0 else M_CONST
-        okc = len(calls) == 1 and tm.veq(calls[0][1][0], hrp) and tm.veq(calls[0][1][1], data) and calls[0][2].get("constant", calls[0][1][2] if len(calls[0][1]) > 2 else None) == want_const
-        if v <= 16:
-            okv = kind == "return" and okc
-        else:
-            okv = kind == "raise"
-        if not okv:
-            wrong.append((v, kind, okc, calls[0][2] if calls else None))
-    ev.bind, ev.assumptions = {}, {}
-    R.check(oid, "DECISION-TABLE", fi, "witness version character: 0..16 accepted with constant 1 / 0x2bc830a3, 17..31 refused (32 classes)", not wrong,
-            "version %s handled wrongly (%s)" % (wrong[0][0], wrong[0][1:]) if wrong else "", example=("witness version %d" % wrong[0][0]) if wrong else None)
-    s = ev.run(fi, use_defaults=True)
-    rets = s.returns()
-    okr = len(rets) == 1 and isinstance(rets[0].value, (list, tuple)) and len(rets[0].value) == 3
-    R.check(oid, "TERM-EQ", fi, "returns (hrp, version, program)", okr, "decode_segwit_addr does not return a triple")
-    if okr:
-        h_, v_, p_ = rets[0].value
-        wantp = tm.app(B + "bech32_decode", [tm.slc(data, 1, -6)], ty=tm.BYTES)
-        R.check(oid, "TERM-EQ", fi, "program = bech32_decode(data without version character and checksum)", tm.veq(h_, hrp) and tm.veq(v_, look) and tm.veq(p_, wantp),
-                "decode_segwit_addr returns (%s, %s, %s)" % (tm.show(h_)[:60], tm.show(v_)[:40], tm.show(p_)[:120]))
-        facts = rules.all_facts(rets[0])
-        R.check(oid, "DOM", fi, "checksum validation dominates the return", any(c[0] == B + "assert_valid_bech32" for c in s.calls), "assert_valid_bech32 is not called")
+    n_cells = 0
+    for nd in (0, 3, 6, 7, 8, 20):
+        data = tm.sized("data", nd)
+        ev.bind = {pb: (hrp, data)}
+        for v in list(range(32)) + [None]:
+            if nd == 0 and v is not None:
+                continue
+            classes = {}
+            if nd:
+                classes[tm.idx(data, 0)] = [CHARS[v]] if v is not None else [x for x in range(256) if x not in CHARS]
+            cell = cells.Cell(classes=classes)
+            ev.assume_fn = cell
+            s = ev.run(fi, use_defaults=True)
+            kind, val = rules.decided_outcome(s)
+            ev.assume_fn = None
+            n_cells += 1
+            accept = nd >= 8 and v is not None and v <= 16
+            if not accept:
+                if kind != "raise":
+                    wrong.append((nd, v, "accepted" if kind == "return" else "not decided", ""))
+                continue
+            calls = [c for c in s.calls if c[0] == B + "assert_valid_bech32" and tm.land(list(c[4])) is True]
+            want_const = 1 if v == 0 else M_CONST
+            okc = False
+            if len(calls) == 1:
+                pos, kwc = calls[0][1], calls[0][2]
+                a = list(pos) + [None] * 3
+                okc = tm.veq(a[0] if pos else kwc.get("hrp"), hrp) and tm.veq(a[1] if len(pos) > 1 else kwc.get("data"), data) and \
+                    (a[2] if len(pos) > 2 else kwc.get("constant", 1)) == want_const
+            okv = kind == "return" and isinstance(val, (list, tuple)) and len(val) == 3 and tm.veq(val[0], hrp) and cell.value(val[1]) == v and \
+                tm.veq(val[2], tm.app(B + "bech32_decode", [tm.slc(data, 1, nd - 6)], ty=tm.BYTES))
+            if not (okc and okv):
+                wrong.append((nd, v, "checksum validated with constant %s: %s" % (hex(want_const), okc), "returns %s" % tm.show(val)[:160]))
+    ev.bind = {}
+    R.floor(oid, n_cells, 150, "decode_segwit_cells")
+    R.check(oid, "DECISION-TABLE", fi, "data length x witness version character: versions 0..16 accepted after validation with constant 1 / 0x2bc830a3 and returned as "
+            "(hrp, version, bech32_decode(data[1:-6])); versions 17..31, foreign characters, empty data and empty programs refused", not wrong,
+            "data part of %s characters with version %s handled wrongly (%s %s)" % wrong[0] if wrong else "",
+            example=("witness version %s, data part of %s characters" % (wrong[0][1], wrong[0][0])) if wrong else None)
 
 
 def spec_pad(n):
@@ -209,17 +291,50 @@ def spec_pad(n):
     return bits % 8, bits // 8
 
 
+_IM = {bytes([c]): i for i, c in enumerate(CHARS)}
+
+
+def char_value(t, data):
+    """i if t is the RAISING translation of character i of `data` to its 5-bit value (a subscript of the inverse charset map, or
+    charset.index); None for anything else."""
+    t = rules.unfz(t)
+    if not isinstance(t, T) or len(t.args) != 2:
+        return None
+    if t.op not in ("lookup", "m:index"):
+        return None
+    im = _IM
+    key = rules.unfz(t.args[1])
+    if t.op == "lookup" and rules.unfz(t.args[0]) == im and isinstance(key, T) and key.op == "i2b" and key.args[1] == 1:
+        ch = key.args[0]
+    elif t.op == "lookup" and rules.unfz(t.args[0]) == im and isinstance(key, T) and key.op == "slice" and tm.veq(key.args[0], data) and \
+            isinstance(key.args[1], int) and key.args[2] == key.args[1] + 1:
+        return key.args[1]
+    elif t.op == "m:index" and rules.unfz(t.args[0]) == CHARS:
+        ch = key.args[0] if isinstance(key, T) and key.op == "i2b" and key.args[1] == 1 else key
+    else:
+        return None
+    ch = rules.unfz(ch)
+    if isinstance(ch, T) and ch.op == "idx" and tm.veq(ch.args[0], data) and isinstance(ch.args[1], int):
+        return ch.args[1]
+    return None
+
+
 def check_bech32_decode(ctx, oid="C06.4"):
+    """5 -> 8 bit regrouping, decided per number n of data characters on an arbitrary data part of exactly n characters: the
+    loops are unrolled, every character's 5-bit value is an atom of 5 bits, and result and padding test are compared bit by
+    bit with BIP173's (sa/bitvec.py), whatever the accumulation scheme (one big integer, a streaming accumulator, ...)."""
+    from .. import bitvec
     R = ctx.R
     fi = ctx.fn(B + "bech32_decode")
     ev = ctx.evaluator()
-    data = P("data", tm.BYTES)
-    im = {bytes([c]): i for i, c in enumerate(CHARS)}
-    ints = tm.mapt(T("lookup", (tm.freeze(im), tm.i2b(tm.bv(0, tm.INT), 1, "big")), tm.ANY), data)
+    ev.unroll_sized = True
     bad = []
     for n in range(1, 73):
-        ev.bind = {tm.length(ints): n, tm.length(data): n}
-        s = ev.run(fi)
+        data = tm.sized("data", n)
+
+        def width_of(atom):
+            return 5 if char_value(atom, data) is not None else None
+        s = ev.run(fi, {fi.params()[0]: data})
         pad, nbytes = spec_pad(n)
         # walk the decision list
         reach_ret = None
@@ -244,39 +359,54 @@ def check_bech32_decode(ctx, oid="C06.4"):
             bad.append((n, "%d groups (%d padding bits) are refused" % (n, pad)))
             continue
         v = reach_ret.value
-        okv = isinstance(v, T) and v.op == "i2b" and v.args[1] == nbytes and v.args[2] == "big"
-        X = None
-        if okv:
-            inner = v.args[0]
-            if pad == 0:
-                X = inner
-            elif isinstance(inner, T) and inner.op == "shr" and inner.args[1] == pad:
-                X = inner.args[0]
+        atoms = {}
+        seen = set()
+
+        def collect(t):
+            if not isinstance(t, (T, tuple)) or id(t) in seen:
+                return
+            seen.add(id(t))
+            if isinstance(t, T):
+                i = char_value(t, data)
+                if i is not None:
+                    atoms.setdefault(i, t)
+                    return
+                for x in t.args:
+                    collect(x)
             else:
-                okv = False
-        if not okv:
-            bad.append((n, "%d groups: result is %s, expected (value >> %d) as %d bytes" % (n, tm.show(v)[:100], pad, nbytes)))
+                for x in t:
+                    collect(x)
+        collect(v)
+        for g in sym_guards:
+            collect(g)
+        if sorted(atoms) != list(range(n)):
+            bad.append((n, "%d groups: characters %s are not translated through the charset with a raising lookup" % (n, sorted(set(range(n)) - set(atoms))[:5])))
+            continue
+        DATA = 0
+        for i in range(n):
+            DATA = tm.binop("bor", DATA, tm.binop("shl", atoms[i], 5 * (n - 1 - i)))
+        want = tm.i2b(tm.binop("shr", DATA, pad), nbytes, "big")
+        same = bitvec.same_bytes(v, want, width_of)
+        if same is None:
+            same = tm.veq(v, want)
+        if not same:
+            bad.append((n, "%d groups: result is %s, expected the groups most significant first, shifted right by %d, as %d bytes" % (n, tm.show(v)[:100], pad, nbytes)))
             continue
         if pad:
-            mask = (1 << pad) - 1
-            okm = any(isinstance(g, T) and g.op == "cmp" and g.args[0] == "ne" and g.args[2] == 0 and tm.veq(g.args[1], tm.binop("band", X, mask)) for g in sym_guards)
+            # some refusal must test exactly the `pad` low bits of the group stream against zero
+            low = bitvec.value_bits(tm.binop("band", DATA, (1 << pad) - 1), width_of)
+            okm = False
+            for g in sym_guards:
+                if isinstance(g, T) and g.op == "cmp" and g.args[0] == "ne" and g.args[2] == 0:
+                    gb = bitvec.value_bits(g.args[1], width_of)
+                    if gb is not None and low is not None and gb[0] == low[0]:
+                        okm = True
             if not okm:
-                bad.append((n, "%d groups: the %d padding bits are not tested arithmetically against zero (guards: %s)" % (n, pad, [tm.show(g)[:80] for g in sym_guards])))
-    ev.bind = {}
+                bad.append((n, "%d groups: the %d padding bits are not tested against zero (guards: %s)" % (n, pad, [tm.show(g)[:80] for g in sym_guards])))
     R.floor(oid, 72, 72, "group_count_classes")
-    R.check(oid, "DECISION-TABLE", fi, "5->8 regrouping over 1..72 groups: padding <= 4 bits, zero, value shifted, exact byte count", not bad,
+    R.check(oid, "DECISION-TABLE", fi, "5->8 regrouping over 1..72 groups: padding <= 4 bits and zero, groups most significant first, exact byte count", not bad,
             "%d group counts decided wrongly; first: %s" % (len(bad), bad[0][1] if bad else ""),
             example=("a data part of %d characters" % bad[0][0]) if bad else None)
-    # the accumulated value: big-endian fold of the 5-bit values
-    s = ev.run(fi)
-    folds = [t for e in s.returns() for t in tm.subterms(e.value) if isinstance(t, T) and t.op == "fold"]
-    okf = False
-    for t in folds:
-        body = t.args[1]
-        acc = [x for x in tm.subterms(body) if isinstance(x, T) and x.op == "acc"]
-        if acc and (tm.veq(body, tm.binop("bor", tm.bv(0), tm.binop("shl", acc[0], 5))) or tm.veq(body, tm.add([tm.bv(0), tm.mul([32, acc[0]])]))):
-            okf = True
-    R.check(oid, "TERM-EQ", fi, "value = fold(acc << 5 | v) over the 5-bit values", okf, "the 5-bit groups are not accumulated most-significant first")
 
 
 def check_valid_segwit(ctx, oid="C06.2"):
